@@ -336,7 +336,7 @@ macro_rules! soa {
         pub mod $m {
             use super::*;
             #[allow(unused_imports)]
-            use simcore::types::$c as C;
+            use $crate::types::$c as C;
 
             pub const NCOLOR: usize = [$(stringify!($f)),+].len();
 
